@@ -562,3 +562,74 @@ LEVEL_TEXT = ("Machine-checked theorems (Coq 8.16, closed under the global conte
 LEVEL_NOTE = ("Trusted: Coq kernel, extraction, OCaml driver, Rust harness, generators, the shell lexer models (only "
               "bash can be executed here), the table translator.  Which slot is emitted through which escape "
               "function is checked on the real scripts only (oracle), not proved.")
+
+
+# ---- powershell / elvish generator models ------------------------------------------------------------------
+# Byte-exact Gallina models of clap_complete/src/aot/shells/{powershell,elvish}.rs with the description texts of
+# the tree (coq/theories/Complete/{Powershell,Elvish}Model.v, TextTree.v incl. what Command::build does to the
+# texts).  Two more correspondence streams: for every tree with an adversarial text in every slot, the script of the
+# extracted model must equal the real generator's script BYTE FOR BYTE -- with the texts as given (`adv`) and with
+# innocuous texts of the same emptiness (`inn`).  The theorems C17_<shell>_script_structure compose the per-slot
+# theorems through these models.
+AREAS = AREAS + ["elvish", "powershell"]
+TRUSTED = TRUSTED + [
+    "PowerShell / elvish generator models: extraction of Complete/{Powershell,Elvish}Model.v + Complete/TextTree.v "
+    "(ExtrOcamlBasic only), drivers ocaml/{powershell,elvish}_driver.ml (spec reader incl. which spec items make "
+    "long_help_exists_ true, UTF-8 decode/encode by the extracted Base.Utf8); char::is_uppercase is a parameter of "
+    "the PowerShell model (theorems hold for every such function)",
+]
+ASSUMPTIONS = ASSUMPTIONS + [
+    "C17_<shell>_script_structure: every name the generator writes (bin name, command names and aliases, shorts, longs "
+    "and their aliases) contains no quote character of that shell's lexer and no '#': names are written unescaped "
+    "(C17_<shell>_quote_in_name_refuted is the witness that the class is sharp)",
+]
+
+
+def _model_script_stream(shell, tier, rng):
+    dist = {}
+    g = TreeGen(rng, dist)
+    cases = []
+    for t in HAND if tier != "quick" else HAND[1::3]:
+        h = hexs(t)
+        spec = ("(cmd app (about %s) (arg a1 (short x61) (long lo-ng1) (valias al1) (help %s)) "
+                "(arg a2 (long lo-ng2) (takes) (global) (pv v1 %s) (pv v2) (help %s)) (arg a3 (pos) (help %s)) "
+                "(sub (cmd sub-c1 (alias sal1) (about %s) (arg a4 (short x42) (long_help %s) (help %s)) "
+                "(sub (cmd sub-c2 (about %s))))))" % (h, h, h, h, h, h, h, h, h))
+        cases.append("(script %s %s)" % (shell, spec))
+    for _ in range(80 if tier == "quick" else 1500):
+        g.n = 0
+        g.global_shorts = list("0123456789")
+        cases.append("(script %s %s)" % (shell, g.cmd("app", 0)))
+    return Stream(shell + "-model", cases, oracle=script_oracle, area=shell, nontrivial=script_nontrivial,
+                  describe={"what": "script of the extracted %s generator model == real script, byte for byte, for the "
+                                    "adversarial and for the innocuous texts" % shell,
+                            "slot x character class (texts generated)": dict(sorted(dist.items())),
+                            "trees": len(cases)})
+
+
+_streams_without_models = streams
+
+
+def streams(tier, rng):
+    out = _streams_without_models(tier, rng)
+    out.append(_model_script_stream("elvish", tier, rng))
+    out.append(_model_script_stream("powershell", tier, rng))
+    return out
+
+
+# what MANIFEST.json says about C17 after round 2
+RULE = RULE + ("  Streams elvish-model / powershell-model: trees with an adversarial text in every slot on which the script of "
+               "the extracted generator model (with the texts as given and with innocuous texts) must equal the real script "
+               "byte for byte.")
+LEVEL_TEXT = (LEVEL_TEXT +
+              "  Round 2: for PowerShell and elvish the per-slot theorems are composed through byte-exact models of the two "
+              "generators: for every command tree (any depth) whose names contain no quote character of the shell's lexer "
+              "and no '#', and for ANY two assignments of description texts (help/about present or absent, empty or not), "
+              "the ENTIRE generated scripts have the same token skeleton and final lexer state; the skeleton equals that of "
+              "the script generated with no text at all and every literal is closed at the end (each text is literal "
+              "payload only); Command::build keeps a tree in the class.  A quote in a name is a proved class boundary "
+              "(names are written unescaped; witness replayed on the real generators).")
+LEVEL_NOTE = ("Trusted: Coq kernel, extraction, OCaml drivers, Rust harness, generators, the shell lexer models (only "
+              "bash can be executed here), the table translator.  Which slot is emitted through which escape "
+              "function is proved for PowerShell and elvish (generator models, tied byte for byte on every run) and "
+              "checked on the real scripts only (oracle) for zsh, fish and nushell.")
